@@ -413,9 +413,16 @@ func makeOptionalPtrDecoder(typ reflect.Type) (decoder, error) {
 	if err != nil {
 		return nil, err
 	}
+	nilKind := nilKindOf(etype)
 	dec := func(s *Stream, val reflect.Value) (err error) {
 		kind, size, err := s.Kind()
 		if err != nil || size == 0 && kind != Byte {
+			if err == nil && kind != nilKind {
+				// only the empty value the encoder writes for a nil pointer of this
+				// type is canonical: an empty string for string-like element types,
+				// an empty list for list-like ones
+				return &decodeError{msg: fmt.Sprintf("wrong kind of empty value (got %v, want %v)", kind, nilKind), typ: typ}
+			}
 			// rearm s.Kind. This is important because the input
 			// position must advance to the next value even though
 			// we don't read anything.
@@ -434,6 +441,28 @@ func makeOptionalPtrDecoder(typ reflect.Type) (decoder, error) {
 		return err
 	}
 	return dec, nil
+}
+
+// nilKindOf returns the kind of the empty value that the encoder produces for
+// a nil pointer to typ (see makePtrWriter): 0x80 for byte arrays, unsigned
+// integers, booleans, strings, byte slices and big integers, 0xC0 otherwise.
+func nilKindOf(typ reflect.Type) Kind {
+	k := typ.Kind()
+	switch {
+	case k == reflect.Array && isByte(typ.Elem()):
+		return String
+	case k == reflect.Struct && typ != bigInt:
+		return List
+	case k == reflect.Array:
+		return List
+	case k == reflect.Slice && !isByte(typ.Elem()):
+		return List
+	case k == reflect.Interface:
+		return List
+	case k == reflect.Ptr:
+		return nilKindOf(typ.Elem())
+	}
+	return String
 }
 
 var ifsliceType = reflect.TypeOf([]interface{}{})
